@@ -276,7 +276,7 @@ def normalise (img : Image) : Image :=
   { img with minX := 0, minY := 0, maxX := img.dx, maxY := img.dy }
 
 /-- whether the decoder unmasks a private copy (repaired source) or the caller's pixels (pinned source) -/
-def DECODE_CLONES : Bool := false
+def DECODE_CLONES : Bool := true
 
 /-- Go: `DecodeBitmap`; also returns the caller's bitmap as it is after the call -/
 def decodeBitmapFull (img : Image) : Out (QRCode × Image) := do
